@@ -118,12 +118,19 @@ def _alarm(*a):
     raise BudgetExceeded()
 
 
-class LineBudget:
-    """step budget: counts `line` events of code in ak/llparser.py (sys.settrace)"""
+class StackBoundExceeded(BaseException):
+    pass
 
-    def __init__(self, budget):
+
+class LineBudget:
+    """step budget: counts `line` events of code in ak/llparser.py (sys.settrace); optionally watches the depth of
+    the parse stack at every `_put_on_stack` call (`max_depth`)"""
+
+    def __init__(self, budget, max_depth=None):
         self.budget = budget
+        self.max_depth = max_depth
         self.n = 0
+        self.depth = 0
 
     def _local(self, frame, event, arg):
         if event == "line":
@@ -133,12 +140,20 @@ class LineBudget:
         return self._local
 
     def _global(self, frame, event, arg):
-        if frame.f_code.co_filename.endswith("llparser.py"):
+        code = frame.f_code
+        if code.co_filename.endswith("llparser.py"):
+            if self.max_depth is not None and code.co_name == "_put_on_stack":
+                d = len(frame.f_locals["parse_stack"]) + 1
+                if d > self.depth:
+                    self.depth = d
+                    if d > self.max_depth:
+                        raise StackBoundExceeded()
             return self._local
         return None
 
     def __enter__(self):
         self.n = 0
+        self.depth = 0
         sys.settrace(self._global)
         return self
 
@@ -198,17 +213,25 @@ def show_tree(e):
     return "(" + " ".join([e.name] + [show_tree(c) for c in e.value]) + ")"
 
 
+def stack_bound(parser, text):
+    """the bound of C03.stack_bound_parse: (|tokens| + 1) * B, B = number of symbols of the factorised grammar + 3
+    (ranks are positions in the list of examined symbols); every token has at least one character"""
+    return (len(text) + 2) * (len(parser.prods_map) + len(parser.terminals) + 3)
+
+
 def parse_reply(parser, text, trace_budget=None):
     old = signal.signal(signal.SIGALRM, _alarm)
-    signal.setitimer(signal.ITIMER_REAL, 20.0)
+    signal.setitimer(signal.ITIMER_REAL, 120.0 if trace_budget else 20.0)
     try:
         if trace_budget:
-            with LineBudget(trace_budget):
+            with LineBudget(trace_budget, stack_bound(parser, text)):
                 t = parser.parse(text, do_cleanup=False)
         else:
             t = parser.parse(text, do_cleanup=False)
         signal.setitimer(signal.ITIMER_REAL, 0)
         return "tree " + show_tree(t)
+    except StackBoundExceeded:
+        return "err StackBoundExceeded"
     except BudgetExceeded:
         return "err BudgetExceeded"
     except Exception as e:
@@ -247,6 +270,7 @@ def diag_reply(parser, op):
 
 
 def impl(case, trace_budget=None, parse_budget=None):
+    """trace_budget: line-event budget of the constructor; parse_budget: of one parse (with the stack bound)"""
     out, parser, overrun = [], None, False
     for line in case["lines"]:
         op = line.split()[0]
@@ -259,10 +283,10 @@ def impl(case, trace_budget=None, parse_budget=None):
             if parser is None:
                 out.append("nogrammar")
             elif overrun:           # one overrun per parser is enough evidence; do not burn the budget again
-                out.append("skipped-after-BudgetExceeded")
+                out.append("skipped-after-overrun")
             else:
                 rep = parse_reply(parser, dec_p(line), parse_budget or trace_budget)
-                overrun = rep == "err BudgetExceeded"
+                overrun = rep in ("err BudgetExceeded", "err StackBoundExceeded")
                 out.append(rep)
         elif op == "amb":       # is_ambiguous() again, after the parses (the table must not have changed)
             out.append("nogrammar" if parser is None else "amb=%d" % (1 if parser.is_ambiguous() else 0))
